@@ -443,10 +443,10 @@ func (c *C08) do(in *hub.Instance, evm *evmhost.Host, g *c08Ghost, op engine.Op,
 		c.refresh(in, g)
 		st.Obs = fmt.Sprint("confirmed", n)
 	case "SetPower":
-		in.Staking.Vals[op.I[0]].Power = op.I[1]
+		in.ValSetPower(int(op.I[0]), op.I[1])
 		st.Obs = "power"
 	case "BondKeyless":
-		in.Staking.Vals[3].Bonded = true
+		in.ValRebond(3)
 		g.DBonded = true
 		st.Obs = "bonded"
 	case "EthAdvance":
